@@ -70,7 +70,7 @@ func SpecStream(i int) byte { panic("abstract spec function") }
 
 //@ func Decoder.decodeType
 //@   arith int
-//@   properties C12
+//@   properties C12 C07
 //@   replay client_Decoder
 //@   ghost var pos mathint
 //@   ghost var unread mathint
@@ -84,7 +84,7 @@ func SpecStream(i int) byte { panic("abstract spec function") }
 
 //@ func Decoder.decodeText
 //@   arith int
-//@   properties C12
+//@   properties C12 C07
 //@   replay client_Decoder
 //@   ghost var pos mathint
 //@   ghost var unread mathint
@@ -97,7 +97,7 @@ func SpecStream(i int) byte { panic("abstract spec function") }
 
 //@ func Decoder.decodeInt
 //@   arith int
-//@   properties C12
+//@   properties C12 C07
 //@   replay client_Decoder
 //@   ghost var pos mathint
 //@   ghost var unread mathint
@@ -109,7 +109,7 @@ func SpecStream(i int) byte { panic("abstract spec function") }
 
 //@ func Decoder.decodeBulkBytes
 //@   arith int
-//@   properties C12 C01
+//@   properties C12 C01 C07
 //@   replay client_Decoder
 //@   ghost var pos mathint
 //@   ghost var unread mathint
@@ -125,7 +125,7 @@ func SpecStream(i int) byte { panic("abstract spec function") }
 
 //@ func Decoder.decodeArray
 //@   arith int
-//@   properties C12
+//@   properties C12 C07
 //@   replay client_Decoder
 //@   ghost var pos mathint
 //@   ghost var unread mathint
@@ -142,7 +142,7 @@ func SpecStream(i int) byte { panic("abstract spec function") }
 
 //@ func Decoder.decodeSingleLineBulkBytesArray
 //@   arith int
-//@   properties C12
+//@   properties C12 C07
 //@   replay client_Decoder
 //@   ghost var pos mathint
 //@   ghost var unread mathint
@@ -157,7 +157,7 @@ func SpecStream(i int) byte { panic("abstract spec function") }
 
 //@ func Decoder.decodeResp
 //@   arith int
-//@   properties C12
+//@   properties C12 C07
 //@   replay client_Decoder
 //@   ghost var pos mathint
 //@   ghost var unread mathint
@@ -176,7 +176,7 @@ func SpecStream(i int) byte { panic("abstract spec function") }
 
 //@ func MustDecodeOpt
 //@   arith int
-//@   properties C12
+//@   properties C12 C07
 //@   replay client_Decoder
 //@   ghost var pos mathint
 //@   ghost var unread mathint
